@@ -2,6 +2,7 @@ use crate::cell::Cell;
 use crate::vm::environment::{BindingLocation, EnvironmentMap};
 use crate::vm::vcell::VCell;
 use std::fmt::{Display, Formatter};
+use std::rc::Rc;
 
 /// Lambda
 ///
@@ -14,7 +15,7 @@ pub struct Lambda {
     pub envmap: EnvironmentMap,
     pub args: Vec<VCell>,
     pub bc: Vec<VCell>,
-    pub desc_args: Option<Cell>,
+    pub desc_args: Option<Rc<Cell>>,
 }
 
 impl Lambda {
@@ -68,7 +69,7 @@ impl Lambda {
     }
 
     pub fn set_desc(&mut self, cell: Cell) {
-        self.desc_args = Some(cell);
+        self.desc_args = Some(Rc::new(cell));
     }
 
     /// Get
